@@ -30,6 +30,7 @@ def families(tier):
         ("a_p_b", D["a_p_b"], 3, 5),
         ("handshake", topos.HANDSHAKE, 3, 4),
         ("ring2_dfix", topos.RINGS_OK["ring2_dfix"], 3, 4),
+        ("fan_out_late_first_pull", topos.FAN_OUT_LATE_FIRST_PULL, 4, 4),
         ("ab_required", topos.REQUIRED_IDIOM["ab_required"], 3, 4),
         ("fan_out_required", topos.REQUIRED_IDIOM["fan_out_required"], 2, 3),
         ("abc_required", topos.REQUIRED_IDIOM["abc_required"], 0, 3),
@@ -48,6 +49,8 @@ def families(tier):
         if q and name == "tap_shared_scale":
             # all listing orders (the producer must also be tried BETWEEN its two consumers), reference link order
             combos = [c for c in combos if c[1] == lperms[0]]
+        elif q and name == "fan_out_late_first_pull":
+            combos = [c for c in combos if c == (perms[-1], lperms[0])]  # consumers swapped, reference link order
         elif q:
             # reversed listing + reversed linking, and each alone
             pick = {(perms[-1], lperms[-1]), (perms[-1], lperms[0]), (perms[0], lperms[-1])}
